@@ -505,3 +505,60 @@ Proof.
       * left. apply Nat.eqb_eq. exact E.
       * right. rewrite E1, E2. cbn. apply Nat.eqb_eq. lia.
 Qed.
+
+(* ---------------------------------------------------------------------------------------- *)
+(* Replay of observed runs: an accepted log ends in a reachable pool state *)
+
+Lemma spawn_upto_preach c S0 n : forall fuel p p',
+  preach c S0 p -> spawn_upto c n fuel p = Some p' -> preach c S0 p'.
+Proof.
+  induction fuel as [|f IH]; intros p p' R H; cbn [spawn_upto] in H;
+    destruct (n <=? length (insts (core p))); try (inversion H; subst; exact R); try discriminate.
+  destruct (pl_step c PSpawn p) as [p1|] eqn:E; [|discriminate].
+  eapply IH; [eapply preach_step; eauto|exact H].
+Qed.
+
+Lemma phop_preach c S0 i d from to p p' : preach c S0 p -> phop c i d from to p = Some p' -> preach c S0 p'.
+Proof.
+  intros R H. unfold phop in H.
+  destruct (pc_at (core p) i); [|discriminate]. destruct (ipc_eqb i0 from); [|discriminate].
+  destruct (pl_step c (PInst i d) p) as [p1|] eqn:E; [|discriminate].
+  destruct (pc_at (core p1) i); [|discriminate]. destruct (ipc_eqb i1 to); [|discriminate].
+  inversion H; subst. eapply preach_step; eauto.
+Qed.
+
+Lemma pool_op_preach c S0 e p p' : preach c S0 p -> pool_op c e p = Some p' -> preach c S0 p'.
+Proof.
+  intros R H. destruct e as [i|i z|i [a|]|i ok|i a|i|i a|]; cbn [pool_op] in H; try discriminate;
+    try (eapply phop_preach; eauto; fail).
+  - destruct (pc_at (core p) i) as [[]|]; try discriminate. eapply phop_preach; eauto.
+  - unfold bind in H. destruct (phop c i false (Dec a) (Shoot a) p) as [p1|] eqn:E; [|discriminate].
+    eapply phop_preach; [eapply phop_preach; eauto|exact H].
+  - destruct (pc_at (core p) i) as [[]|]; try discriminate. eapply phop_preach; eauto.
+  - destruct (pc_at (core p) i) as [[]|]; try (eapply phop_preach; eauto; fail).
+    unfold bind in H. destruct (phop c i false (Resp a) (Rel a) p) as [p1|] eqn:E; [|discriminate].
+    eapply phop_preach; [eapply phop_preach; eauto|exact H].
+Qed.
+
+Lemma preplay_one_preach c S0 e p p' : preach c S0 p -> preplay_one c e p = Some p' -> preach c S0 p'.
+Proof.
+  intros R H. destruct e as [o| | |n ce|i ooa]; cbn [preplay_one] in H.
+  - destruct o; try (eapply pool_op_preach; eauto; fail).
+    + eapply spawn_upto_preach; eauto.
+    + inversion H; subst; exact R.
+  - eapply preach_step; eauto.
+  - eapply preach_step; eauto.
+  - destruct (spawn_upto c n n p) as [p1|] eqn:E1; [|discriminate].
+    destruct (pl_step c (PEndStart ce) p1) as [p2|] eqn:E2; [|discriminate].
+    eapply preach_step; [eapply preach_step; [eapply spawn_upto_preach; eauto|exact E2]|exact H].
+  - eapply preach_step; eauto.
+Qed.
+
+Theorem preplay_preach c S0 l : forall p k p' k',
+  preach c S0 p -> preplay c l p k = (p', k', true) -> preach c S0 p'.
+Proof.
+  induction l as [|e r IH]; cbn [preplay]; intros p k p' k' R H.
+  - inversion H; subst; exact R.
+  - destruct (preplay_one c e p) as [p1|] eqn:E; [|inversion H].
+    eapply IH; [eapply preplay_one_preach; eauto|exact H].
+Qed.
